@@ -30,37 +30,39 @@ type Frame struct {
 }
 
 type Exec struct {
-	c       *Ctx
-	prog    *Program
-	cs      *ContractSet
-	fn      *ssa.Function
-	con     *Contract
-	objMeta map[int]*ObjMeta
-	nextObj int
-	obligs  []*Oblig
-	paths   int
-	pruned  int
-	errs    []string
-	loops   map[*ssa.Function]map[*ssa.BasicBlock]*LoopInfo
-	names   map[*ssa.Function]map[string][]ssa.Value
-	entry   *State
-	env0    map[ssa.Value]*Val
-	counter map[string]int
-	maxPath int
-	tooMany bool
-	pruner  *Pruner
-	exits   int
-	side    map[string]*Val
-	stack   map[*ssa.Function]int
-	unknown map[string]int
-	colls   map[string]*CollInfo
-	stSorts map[string]string
-	smtFunSorts map[string]string
+	c             *Ctx
+	prog          *Program
+	cs            *ContractSet
+	fn            *ssa.Function
+	con           *Contract
+	objMeta       map[int]*ObjMeta
+	nextObj       int
+	obligs        []*Oblig
+	paths         int
+	pruned        int
+	errs          []string
+	loops         map[*ssa.Function]map[*ssa.BasicBlock]*LoopInfo
+	names         map[*ssa.Function]map[string][]ssa.Value
+	entry         *State
+	env0          map[ssa.Value]*Val
+	counter       map[string]int
+	maxPath       int
+	tooMany       bool
+	pruner        *Pruner
+	exits         int
+	side          map[string]*Val
+	stack         map[*ssa.Function]int
+	unknown       map[string]int
+	colls         map[string]*CollInfo
+	stSorts       map[string]string
+	smtFunSorts   map[string]string
 	usedContracts map[string]bool
-	curEnv  map[ssa.Value]*Val
-	curBlock *ssa.BasicBlock
-	disc    *discovery
-	unfoldLevels int
+	curEnv        map[ssa.Value]*Val
+	curBlock      *ssa.BasicBlock
+	disc          *discovery
+	unfoldLevels  int
+	tmp           map[int]string
+	exactDec      bool
 }
 
 func (x *Exec) fail(format string, a ...any) {
@@ -79,6 +81,13 @@ func (x *Exec) newObj(s *State, T types.Type, name string, term string, fresh bo
 	id := x.nextObj
 	x.objMeta[id] = &ObjMeta{ID: id, T: T, Name: name, Sort: x.contentSort(T), Fresh: fresh}
 	s.objs[id] = term
+	if !fresh {
+		// read-only temporaries created while evaluating specifications are visible from every state
+		if x.tmp == nil {
+			x.tmp = map[int]string{}
+		}
+		x.tmp[id] = term
+	}
 	return id
 }
 
@@ -121,6 +130,10 @@ func (x *Exec) name(s *State, prefix, sort, term string) string {
 }
 
 func (x *Exec) zeroOf(T types.Type) string {
+	if namedPath(T) == "time.Time" {
+		x.c.P.declare("timezero", "(declare-const timezero Int)")
+		return "timezero"
+	}
 	if m, ok := T.Underlying().(*types.Map); ok {
 		ms := x.mapSort(m)
 		return fmt.Sprintf("(mk_%s ((as const (Array %s Bool)) false) %s)", ms, x.c.sortOf(m.Key()), x.c.constArr(x.c.sortOf(m.Key()), x.c.sortOf(m.Elem()), x.zeroOf(m.Elem())))
@@ -275,6 +288,11 @@ func (x *Exec) assumeInv(s *State, T types.Type, term string) {
 	srt := x.c.sortOf(T)
 	if strings.HasPrefix(srt, "Slc_") {
 		s.assume(and(sx(">=", sx("len_"+srt, term), "0"), sx("<", sx("len_"+srt, term), pow2(63)), sx(">=", sx("off_"+srt, term), "0")))
+		if namedPath(T) == "github.com/cosmos/cosmos-sdk/types.Coins" {
+			// values of type sdk.Coins held by the program are valid (sorted, unique denoms, positive amounts): A-sdk
+			x.coinSorts()
+			s.assume(sx("coins.wf", term))
+		}
 	}
 	if a, ok := T.Underlying().(*types.Array); ok && srt == "Bytes" {
 		s.assume(eq(sx("blen", term), fmt.Sprint(a.Len())))
@@ -388,7 +406,10 @@ func (x *Exec) pathType(p *Ptr) types.Type {
 
 func (x *Exec) loadTerm(s *State, p *Ptr) string {
 	T := x.objMeta[p.Obj].T
-	t := s.objs[p.Obj]
+	t, ok := s.objs[p.Obj]
+	if !ok {
+		t = x.tmp[p.Obj]
+	}
 	for _, st := range p.Path {
 		t, T = x.stepTerm(T, t, st)
 		if T == nil {
